@@ -198,6 +198,32 @@ def run(tier, seed):
         if obj is not None:
             acc.check('build_path', src, obj=obj, names=names)
             cases.append(dict(src=src, op='build', obj=obj))
+    # wrong number of elements (too few, too many) at any depth, constant and computed counts
+    for src, obj, names in [('Struct("hdr"/Struct("items"/Array(2, Byte)))', dict(hdr=dict(items=[1, 2, 3])), ['hdr', 'items']),
+                            ('Struct("hdr"/Struct("items"/Array(2, Byte)))', dict(hdr=dict(items=[1])), ['hdr', 'items']),
+                            ('Struct("n"/Byte, "a"/Array(this.n, Int16ub))', dict(n=1, a=[1, 2]), ['a']),
+                            ('Struct("n"/Byte, "a"/Array(this.n, Int16ub))', dict(n=3, a=[1, 2]), ['a']),
+                            ('Struct("p"/Prefixed(Byte, Struct("v"/Array(1, Struct("x"/Byte)))))', dict(p=dict(v=[dict(x=1), dict(x=2)])), ['p', 'v']),
+                            ('Sequence("a"/Array(0, Byte), "b"/Byte)', [[5], 1], ['a']),
+                            ('Struct("s"/Switch(1, {1: "arr"/Array(2, Byte)}))', dict(s=[1, 2, 3, 4]), ['s', 'arr']),
+                            ('Struct("l"/LazyArray(2, Byte))', dict(l=[1, 2, 3]), ['l']),
+                            ('Struct("o"/Struct("i"/Array(3, "e"/Byte)))', dict(o=dict(i=[1, 2, 3, 4, 5])), ['o', 'i'])]:
+        acc.check('build_path', src, obj=obj, names=names)
+        cases.append(dict(src=src, op='build', obj=obj))
+    # bit-level members of variable size (the streamed path), cut at every byte: the member that runs out of bits is named
+    bsrc = 'Struct("bits"/Bitwise(Struct("n"/Nibble, "rsv"/Nibble, "items"/Array(this.n, "it"/BitsInteger(12)))), "t"/Byte)'
+    bdata = C.get(bsrc).build(dict(bits=dict(n=2, rsv=0, items=[1, 2]), t=7))
+    for k, names in [(1, ['bits', 'items', 'it']), (2, ['bits', 'items', 'it']), (3, ['bits', 'items', 'it']), (4, ['t']), (0, ['bits', 'n'])]:
+        acc.check('parse_path', bsrc, data=bdata[:k], names=names)
+    for src, obj in [(bsrc, dict(bits=dict(n=2, rsv=0, items=[1, 2]), t=7)), (bsrc, dict(bits=dict(n=4, rsv=0, items=[1, 2, 3, 4]), t=7)),
+                     ('Struct("h"/Byte, "b"/BitStruct("k"/BitsInteger(4), "v"/BitsInteger(this.k * 4), Padding(4)))', dict(h=1, b=dict(k=5, v=99))),
+                     ('Struct("w"/Bitwise(Struct("a"/Bit, "raw"/Bytewise(Prefixed(Byte, GreedyBytes)), "z"/BitsInteger(7))))', dict(w=dict(a=1, raw=b'xyz', z=3)))]:
+        try:
+            data = C.get(src).build(obj)
+        except Exception:
+            continue
+        for k in range(len(data)):
+            cases.append(dict(src=src, op='parse', data=data[:k]))
     # string members (codec failures must carry the path too)
     for src, data, names in [('Struct("s"/PaddedString(2, "ascii"))', b'\xff\xff', ['s']), ('Struct("h"/Struct("t"/CString("utf8")))', b'\xff\x00', ['h', 't']),
                              ('Struct("a"/Array(2, Struct("n"/PascalString(Byte, "utf_16_le"))))', b'\x01a\x00', ['a', 'n'])]:
